@@ -43,7 +43,9 @@ def laplacian(model_out, *derivative_variable, grad=None):
         A Tensor, where every row contains the value of the sum of the second
         derivatives (laplace) w.r.t the row of the input variable.
     """
-    laplacian = torch.zeros((*model_out.shape[:-1], 1), device=model_out.device)
+    laplacian = torch.zeros(
+        (*model_out.shape[:-1], 1), device=model_out.device, dtype=model_out.dtype
+    )
     for vari in derivative_variable:
         if grad is None or len(derivative_variable) > 1:
             grad = _grad_or_zero(model_out.sum(), vari)
@@ -295,7 +297,9 @@ def rot(model_out, *derivative_variable):
         ""
     """
     jacobian = jac(model_out, *derivative_variable)
-    rotation = torch.zeros((len(derivative_variable[0]), 3))
+    rotation = torch.zeros(
+        (len(derivative_variable[0]), 3), device=jacobian.device, dtype=jacobian.dtype
+    )
     rotation[:, 0] = jacobian[:, 2, 1] - jacobian[:, 1, 2]
     rotation[:, 1] = jacobian[:, 0, 2] - jacobian[:, 2, 0]
     rotation[:, 2] = jacobian[:, 1, 0] - jacobian[:, 0, 1]
@@ -389,7 +393,11 @@ def matrix_div(model_out, *derivative_variable):
         A Tensor of vectors of the form (batch, dim), containing the
         divegrence of the input.
     """
-    div_out = torch.zeros((len(model_out), model_out.shape[1]), device=model_out.device)
+    div_out = torch.zeros(
+        (len(model_out), model_out.shape[1]),
+        device=model_out.device,
+        dtype=model_out.dtype,
+    )
     for i in range(model_out.shape[1]):
         # compute divergence of matrix by computing the divergence
         # for each row
